@@ -51,4 +51,12 @@ def run(ctx):
     ctx.evaluations = len(evs)
     for e in evs[:1] + evs[-2:]:
         ctx.sample(sc.describe(e))
+    if not quick:
+        # the repository's own 3592 tests as a trace source (recording plugin, no repository edits)
+        import recorded
+        rec = recorded.record(ctx, "syntax")
+        for e in rec:
+            e["id"] = "repo-" + e["id"]
+        evs += rec
+        ctx.evaluations = len(evs)
     sc.judge(ctx, evs)
